@@ -21,12 +21,12 @@ AF_INET = socket.AF_INET
 AF_INET6 = socket.AF_INET6
 EAGAIN = 11
 
-SNAP_FMT = "<8BqiIHH16s4HiibbiiibbiiiB"
+SNAP_FMT = "<8BqiIHH16s4HiibbiiibbiiiBH"
 SNAP_SIZE = struct.calcsize(SNAP_FMT)
 SNAP_FIELDS = ("active authenticated authenticated_raw options_locked disabled lazy conn downenc "
                "last_pkt seed tun_ip host_family host_port host_addr q_id q_id2 qs_id qs_id2 "
                "in_len in_offset in_seq in_frag out_len out_offset out_sentlen out_seq out_frag "
-               "outfragresent fragsize outpacketq_filled encbits").split()
+               "outfragresent fragsize outpacketq_filled encbits inv").split()
 
 WATCHDOG_S = float(os.environ.get("VERIF_WATCHDOG", "20"))
 SPIN_LIMIT = int(os.environ.get("VERIF_SPIN_LIMIT", "100000"))
@@ -294,6 +294,13 @@ class Kernel:
                     p.snapshot = [dict(zip(SNAP_FIELDS, struct.unpack_from(SNAP_FMT, raw, i * SNAP_SIZE)))
                                   for i in range(sl // SNAP_SIZE)]
                     p.snap_seq += 1
+                    if getattr(p, "inv_bad", None) is None:
+                        for ui, row in enumerate(p.snapshot):
+                            if row["inv"]:
+                                # structural invariant of the users[] table violated (first occurrence is kept)
+                                p.inv_bad = (self.now, ui, row["inv"])
+                                self.emit("table_invariant", p.name, slot=ui, bits=row["inv"], row={kk: vv for kk, vv in row.items() if kk != "host_addr"})
+                                break
                 p.nwaits += 1
                 p.cause = None
                 if self.keep_snaps and p.role == "client" and getattr(p, "cstate", None) is not None:
